@@ -254,6 +254,17 @@ fn bases() -> Vec<Ty> {
         // enums
         enm(None, false, vec![unit_variant("A", None), tuple_variant("B", &[p(Prim::U8)], None)]),
         enm(Some(IntRepr::U8), true, vec![tuple_variant("A", &[p(Prim::U8)], None), named_variant("B", &[p(Prim::U8)], None)]),
+        // a field whose type is an enum with payload-carrying variants (its encoded size depends
+        // on the variant stored): removing it means skipping a value of varying length
+        strukt(
+            false,
+            Style::Named,
+            vec![
+                Field::plain("a", p(Prim::U8)),
+                Field::plain("e", enm_default(None, false, vec![unit_variant("A", None), tuple_variant("B", &[p(Prim::U32)], None), tuple_variant("C", &[p(Prim::String)], None)])),
+                Field::plain("z", p(Prim::U16)),
+            ],
+        ),
         // the boundary of the implicit one-byte variant index: 255 variants, then a 256th is appended
         enm(None, false, (0..255).map(|i| if i == 254 { tuple_variant("V254", &[p(Prim::U8)], None) } else { unit_variant(&format!("V{}", i), None) }).collect()),
     ]
